@@ -68,8 +68,23 @@ def squeeze(s):
 CPU_BUDGET = 0.5
 
 
+ATTEMPTS = 3
+
+
 def parse(text, mode):
-    """One of the four parse paths; calls into the REGEX frontend get a CPU budget (see vf.layoutgen.cpu_guard)."""
+    """One of the four parse paths.  A parse that exhausts the CPU budget of its REGEX part is repeated from scratch
+    (only ATTEMPTS exhaustions in a row count: on a loaded machine a single one is noise)."""
+    for attempt in range(ATTEMPTS):
+        try:
+            return _parse(text, mode)
+        except LG.CpuBudget:
+            if attempt == ATTEMPTS - 1:
+                raise
+    return None
+
+
+def _parse(text, mode):
+    """Calls into the REGEX frontend get a CPU budget (see vf.layoutgen.cpu_guard)."""
     from loki import Sourcefile, Frontend
     from loki.frontend import RegexParserClass as R
     if mode == 'fp':
@@ -226,12 +241,16 @@ def fragments(text, mode):
         return ()
     from loki import Sourcefile, Frontend
     from loki.frontend import RegexParserClass as R
-    try:
-        with LG.cpu_guard(CPU_BUDGET):
-            sf = Sourcefile.from_source(text, frontend=Frontend.REGEX, parser_classes=R.ProgramUnitClass)
-        return tuple(n.source.lines[0] for n in sf.ir.body if getattr(n, 'source', None) is not None)
-    except (Exception, LG.CpuBudget):  # pylint: disable=broad-except
-        return ()
+    for _ in range(ATTEMPTS):
+        try:
+            with LG.cpu_guard(CPU_BUDGET):
+                sf = Sourcefile.from_source(text, frontend=Frontend.REGEX, parser_classes=R.ProgramUnitClass)
+            return tuple(n.source.lines[0] for n in sf.ir.body if getattr(n, 'source', None) is not None)
+        except LG.CpuBudget:
+            continue
+        except Exception:  # pylint: disable=broad-except
+            return ()
+    return ()
 
 
 def first_per_clause(viol):
@@ -434,12 +453,19 @@ def run(ctx):
 
 
 def replay(case):
+    """Judge exactly the recorded case (its own file, parse path) and report any violation of the recorded kind
+    (clause); the class named in the key is only the first victim and may differ between runs of one defect."""
     _setup()
     fkey = tuple(case['fkey'])
     if case['kind'] == 'repo':
-        f, _, refused = failures_repo(os.path.join(repo_root(), case['path']), case['mode'])
-        if f is None:
-            return None
-        return f.get(fkey)
-    f = failures_generated(LG.build(case['devs'], case.get('seed', 0)), case['mode'])[0]
-    return f.get(fkey)
+        f, _, _refused = failures_repo(os.path.join(repo_root(), case['path']), case['mode'])
+    else:
+        f = failures_generated(LG.build(case['devs'], case.get('seed', 0)), case['mode'])[0]
+    if not f:
+        return None
+    if fkey in f:
+        return f[fkey]
+    for (clause, _cls), msg in f.items():
+        if clause == fkey[0]:
+            return msg
+    return None
